@@ -121,7 +121,7 @@ def explore(res, rng, n):
         wanth = form * math.prod((1 + psi * k) ** -0.5 for k in ks)
         if abs(b - beta) > 1e-3 or abs(b - bf) > 1e-9 or not np.allclose(u, uf, atol=1e-9):
             fail(res, 'beta / design point are not those of FORM', case, [b, bf, beta])
-        if abs(pf - want) > 2e-3 * want or abs(pfh - wanth) > 2e-3 * wanth:
+        if abs(pf - want) > 2e-4 * want or abs(pfh - wanth) > 2e-4 * wanth:
             fail(res, 'paraboloid: estimate differs from the closed form (rotation / ordering of axes)', case, [pf, want, pfh, wanth])
     # ---- flat limit states: linear in correlated normals; flat in U space with lognormal marginals
     flat = []
@@ -132,6 +132,11 @@ def explore(res, rng, n):
     # the origin already in the failure set: FORM's beta is negative and SORM must keep its sign
     flat.append(('linear-origin-failed', [stats.norm(), stats.norm()], [[1.0, 0.0], [0.0, 1.0]], (lambda X: -1.0 - X[0] - X[1])))
     flat.append(('linear-origin-failed-correlated', [stats.norm(1, 2), stats.norm(0, 1)], [[1.0, 0.3], [0.3, 1.0]], (lambda X: -2.0 - X[0] + 2 * X[1])))
+    # ordinary engineering magnitudes (means of hundreds, standard deviations of tens)
+    flat.append(('linear-engineering-magnitudes', [stats.norm(500, 50), stats.norm(300, 40)], [[1.0, 0.0], [0.0, 1.0]],
+                 (lambda X: 0.9 * X[0] - 1.1 * X[1] - 25.3)))
+    flat.append(('linear-engineering-magnitudes-correlated', [stats.norm(2.0e5, 1.5e4), stats.norm(1.2e5, 2.0e4)], [[1.0, 0.4], [0.4, 1.0]],
+                 (lambda X: X[0] - X[1] - 1.0e4)))
     s = 0.5
     flat.append(('lognormal-product', [stats.lognorm(s), stats.lognorm(s)], [[1.0, 0.0], [0.0, 1.0]],
                  (lambda X: 2.0 - math.log(X[0]) - math.log(X[1]))))
@@ -152,7 +157,7 @@ def explore(res, rng, n):
             fail(res, 'SORM raised on a flat limit state', case, repr(e)[:200])
             continue
         for nm, v in outs.items():
-            if abs(v - pff) > 5e-3 * pff:
+            if abs(v - pff) > 2e-4 * pff:
                 fail(res, f'{nm}: flat limit surface but the estimate differs from FORM', case, {'sorm': v, 'form': pff},
                      sig=f'C12:flat-not-form:{name}')
 
@@ -166,7 +171,7 @@ def run(tier, seed):
     explore(res, random.Random(seed), n)
     res.disagreements_checked = res.traces
     res.trusted += ['closing formulas: hand-written generic-scalar model evaluated at Float with Phi / phi values supplied by scipy (oracle inputs); '
-                    'curvature extraction: tolerance tie 2e-3 (finite-difference Hessian noise), flat clause 5e-3',
+                    'curvature extraction: tolerance tie 2e-4 (finite-difference Hessian), flat clause 2e-4',
                     'coptFORM (SLSQP), numerical Hessian, np.linalg.eig and Gram-Schmidt conditioning are modelled, not verified']
     return core.finish(res)
 
